@@ -337,6 +337,53 @@ fn run_tcp(seed: u64) -> Result<u64, Fail> {
     Ok(works)
 }
 
+// ------------------------------------------------------------------------------------------------ wpcr
+fn run_wpcr(seed: u64) -> Result<u64, Fail> {
+    use rustradio::stream::new_nocopy_stream;
+    let t = "wpcr";
+    let mut bursts: Vec<Vec<Float>> = vec![];
+    // every burst of length 0..=10 over {+1, -1}
+    for n in 0..=10usize {
+        for bits in 0..(1u32 << n) {
+            bursts.push((0..n).map(|i| if (bits >> i) & 1 == 1 { 1.0 } else { -1.0 }).collect());
+        }
+    }
+    // periodic bursts (transition spectrum peaking anywhere up to Nyquist), a few phases and lengths
+    for period in 2..=9usize {
+        for len in [12usize, 13, 40, 64, 100, 101, 250, 257] {
+            for phase in 0..period.min(3) {
+                bursts.push((0..len).map(|i| if ((i + phase) % period) * 2 < period { 1.0 } else { -1.0 }).collect());
+            }
+        }
+    }
+    // degenerate values
+    let mut rng = Rng(seed * 31 + 7);
+    for _ in 0..50 {
+        let n = rng.below(40);
+        bursts.push((0..n).map(|_| match rng.below(8) { 0 => Float::NAN, 1 => Float::INFINITY, 2 => Float::NEG_INFINITY, 3 => 0.0, _ => rng.below(2001) as Float / 1000.0 - 1.0 }).collect());
+    }
+    let mut works = 0;
+    for burst in &bursts {
+        for which in 0..2 {
+            let (tx, rx) = new_nocopy_stream::<Vec<Float>>();
+            tx.push(burst.clone(), &[]);
+            let r = if which == 0 {
+                let (mut b, _o) = WpcrBuilder::new(rx).build();
+                std::panic::catch_unwind(std::panic::AssertUnwindSafe(|| b.work().is_ok()))
+            } else {
+                let (mut b, _o) = Midpointer::new(rx);
+                std::panic::catch_unwind(std::panic::AssertUnwindSafe(|| b.work().is_ok()))
+            };
+            works += 1;
+            if !matches!(r, Ok(true)) {
+                let shown: Vec<String> = burst.iter().take(24).map(|x| format!("{x}")).collect();
+                return Err(fail(t, "C15", "no-panic-on-burst-content", format!("{} panicked or failed on the burst of {} samples [{}{}]", if which == 0 { "Wpcr::work" } else { "Midpointer::work" }, burst.len(), shown.join(","), if burst.len() > 24 { ",.." } else { "" }), seed));
+            }
+        }
+    }
+    Ok(works)
+}
+
 #[test]
 fn bx_io() {
     std::panic::set_hook(Box::new(|i| {
@@ -346,7 +393,7 @@ fn bx_io() {
             }
         }
     }));
-    let targets = std::env::var("BX_TARGETS").unwrap_or_else(|_| "rtlsdr,fsink,s2pdu,auenc,tcp".into());
+    let targets = std::env::var("BX_TARGETS").unwrap_or_else(|_| "rtlsdr,fsink,s2pdu,auenc,tcp,wpcr".into());
     let n: u64 = std::env::var("BX_N").ok().and_then(|s| s.parse().ok()).unwrap_or(40);
     let base: u64 = std::env::var("VERIF_SEED").ok().and_then(|s| s.parse().ok()).unwrap_or(1);
     let mut failed = false;
@@ -362,6 +409,7 @@ fn bx_io() {
                 "s2pdu" => run_s2pdu(seed),
                 "auenc" => run_auenc(seed),
                 "tcp" => run_tcp(seed),
+                "wpcr" => { if i > 0 { break; } run_wpcr(seed) }
                 _ => Ok(0),
             };
             runs += 1;
